@@ -1,0 +1,11 @@
+//go:build verif
+
+// Contracts for the deductive verifier in /verif (govc). Comment-only.
+
+package v1
+
+//@ func (s Script) ToCore() (r *ledgercontroller.Script, err error)
+//@   property C38
+//@   ensures err == nil ==> r != nil && r.Plain == s.Plain && r.Vars != nil
+//@   loop 1:
+//@     invariant s.Script.Vars != nil && s.Script.Plain == old(s.Script.Plain)
